@@ -134,7 +134,9 @@ Definition is_part_of_origin_v0 (origin : bytes) (uri_scheme uri_authority : opt
   end.
 
 (** ---- [AllowList] ---- *)
-Record aorigin := mkAO { ao_scheme : option bytes; ao_host : bytes; ao_port : option N }.
+(** an allowed origin: [add_origin_uri] asserts that it has a host and a scheme, so [check]'s
+    [allowed.scheme().map_or("https", ..)] and [allowed.host().unwrap()] always see them *)
+Record aorigin := mkAO { ao_scheme : bytes; ao_host : bytes; ao_port : option N }.
 Record allow_list := mkAL {
   al_allowed : list aorigin; al_all : bool; al_methods : option (list N);
   al_headers : list bytes; al_cache_ms : N }.
@@ -145,8 +147,8 @@ Definition al_add_origin (parse : bytes -> option uparts) (al : allow_list) (o :
   | None => Panic
   | Some u =>
       match u_host u, u_scheme u with
-      | Some h, Some _ =>
-          Ok (mkAL (al_allowed al ++ [mkAO (u_scheme u) h (u_port u)]) (al_all al) (al_methods al) (al_headers al) (al_cache_ms al))
+      | Some h, Some sch =>
+          Ok (mkAL (al_allowed al ++ [mkAO sch h (u_port u)]) (al_all al) (al_methods al) (al_headers al) (al_cache_ms al))
       | _, _ => Panic
       end
   end.
@@ -166,9 +168,8 @@ Definition al_add_header (al : allow_list) (h : bytes) : allow_list :=
 Definition grant := (option (list N) * list bytes * N)%type.
 Definition al_grant (al : allow_list) : grant := (al_methods al, al_headers al, al_cache_ms al).
 Definition origin_matches (allowed : aorigin) (origin : uparts) : bool :=
-  let scheme := match ao_scheme allowed with Some s => s | None => B "https" end in
   opt_beq (Some (ao_host allowed)) (u_host origin) && opt_neq (ao_port allowed) (u_port origin)
-  && opt_beq (Some scheme) (u_scheme origin).
+  && opt_beq (Some (ao_scheme allowed)) (u_scheme origin).
 Definition al_check (al : allow_list) (origin : uparts) : option grant :=
   if al_all al then Some (al_grant al)
   else if existsb (fun allowed => origin_matches allowed origin) (al_allowed al) then Some (al_grant al)
@@ -215,7 +216,7 @@ Definition cors_spec (parse : bytes -> option uparts) (lookup : bytes -> option 
       if to_str_ok o && beq o (scheme ++ B "://" ++ authority) then VSame
       else match lookup path, parse o with
            | Some al, Some ou =>
-               if (al_all al || existsb (fun a => opt_beq (ao_scheme a) (u_scheme ou) && opt_beq (Some (ao_host a)) (u_host ou)
+               if (al_all al || existsb (fun a => opt_beq (Some (ao_scheme a)) (u_scheme ou) && opt_beq (Some (ao_host a)) (u_host ou)
                                                   && opt_neq (ao_port a) (u_port ou)) (al_allowed al))
                   && (match al_methods al with None => true | Some l => mem_N m l end)
                then VAllow (al_methods al, al_headers al, al_cache_ms al) else VRefuse
@@ -349,10 +350,10 @@ Section Pipe.
   Definition key_request (r : request) (ov : option bytes) : request :=
     match ov with Some u => mkReq (rq_method r) u None (rq_headers r) (rq_addr r) | None => r end.
 
-  Definition serve_ov (st : state unit) (now : N) (r0 : request) : state unit * reply * list bytes :=
+  (** [handle_cache] after [resolve_prime]: [r] is the request as the primes left it, [ov] the override URI *)
+  Definition serve_core (st : state unit) (now : N) (ok : bool) (r : request) (ov : option bytes)
+    : state unit * reply * list bytes :=
     let '(c, hs) := st in
-    let ok := sanitize_ok_fix r0 in
-    let '(r, ov) := resolve_prime (prime_list cfg) r0 None in
     let comp := fun hs r ok => compute_ov hs r ov ok in
     if negb (cc_cache cfg) then
       let '(f, hs', lg) := comp hs r ok in
@@ -379,6 +380,9 @@ Section Pipe.
         else miss unit comp (cc_cache cfg) true no_negotiate no_vary_tuple no_vary_header c1 hs now r ok
     | None => miss unit comp (cc_cache cfg) true no_negotiate no_vary_tuple no_vary_header c1 hs now r ok
     end.
+  Definition serve_ov (st : state unit) (now : N) (r0 : request) : state unit * reply * list bytes :=
+    let '(r, ov) := resolve_prime (prime_list cfg) r0 None in
+    serve_core st now (sanitize_ok_fix r0) r ov.
 
   (** ---- the Package of [with_cors] (priority -1024), applied by [SendKind::send] to every response,
       cached or not, with the request as the primes left it ---- *)
@@ -414,6 +418,31 @@ Section Pipe.
     | CReq r :: rest => let '(st', w) := respond st now r in Some w :: run_conn st' now rest
     | CClear :: rest => None :: run_conn ([], snd st) now rest
     end.
+  Fixpoint run_conn_state (st : state unit) (now : N) (ops : list (cop * N)) : state unit :=
+    match ops with
+    | [] => st
+    | (CReq r, dt) :: rest => run_conn_state (fst (respond st (now + dt) r)) (now + dt) rest
+    | (CClear, dt) :: rest => run_conn_state ([], snd st) (now + dt) rest
+    end.
+
+  (** ---- vocabulary of the theorems ---- *)
+  (** the rules in force: those of [with_cors], none under the default [with_disallow_cors] *)
+  Definition effective_rules : ruleset allow_list := if cc_with_cors cfg then cc_rules cfg else [].
+  (** the property's verdict on a request (decision function [cors_spec], rule found by [RuleSet::get]) *)
+  Definition req_verdict (r : request) : verdict :=
+    cors_spec parse (rs_get effective_rules) (rq_method r) conn_scheme
+              (match header H_HOST r with Some a => a | None => [] end) (rq_path r) (header H_ORIGIN r).
+  (** the request as the non-CORS primes leave it ([uri_redirect] of [Extensions::new()]) *)
+  Definition rw (r : request) : request := if cc_new cfg then uri_redirect r else r.
+  (** complement of the known class [acao_path_rewrite]: the rewritten path has the same rule *)
+  Definition stable (r : request) : Prop :=
+    rs_get effective_rules (rq_path (rw r)) = rs_get effective_rules (rq_path r).
+  (** cache keys of internal routes: never stored by any history (invariant [no_internal]) *)
+  Definition key_internal (k : key) : bool :=
+    match k with KPath p => starts_with (B "/./") p | KPathQuery s i => starts_with (B "/./") (firstn i s) end.
+  Definition no_internal (c : cache) : Prop := forall k e, In (k, e) c -> key_internal k = false.
+  (** no application handler is mounted on an internal route *)
+  Definition handlers_external : Prop := forall p sp, In (p, sp) (cc_handlers cfg) -> starts_with (B "/./") p = false.
 End Pipe.
 
 (** ---- xval interface ---- *)
